@@ -187,13 +187,17 @@ func payloadStr(buf []byte) string {
 	return subsStr(cluster.VerifC05Subs(st))
 }
 
+// peerNum recognises the id of a remote subscriber (mesh.PeerName.String(): a MAC-like string;
+// connection ids are base32 and never contain a colon).
 func peerNum(id string) (int, bool) {
-	for i, n := range nodes {
-		if n.name.String() == id {
-			return i + 1, true
-		}
+	if len(id) != 17 || strings.Count(id, ":") != 5 {
+		return 0, false
 	}
-	return 0, false
+	n, err := mesh.PeerNameFromString(id)
+	if err != nil {
+		return 0, false
+	}
+	return int(n), true
 }
 
 func routesOf(i int) []string {
@@ -582,6 +586,39 @@ func step(w []string, line string) string {
 		case "offline":
 			nodes[num(w[1])-1].sw.VerifC05Offline(mesh.PeerName(num(w[2])))
 			return dump(num(w[1]))
+		case "inject":
+			// inject <b> <peer> <conn> <channel> <add> <del>: broker b is handed a one-entry payload with
+			// explicit times (what any peer could send: Swarm.merge must cope with every payload)
+			b := num(w[1])
+			peer, _ := strconv.ParseUint(w[2], 10, 64)
+			conn, _ := strconv.ParseUint(w[3], 10, 64)
+			add, _ := strconv.ParseInt(w[5], 10, 64)
+			del, _ := strconv.ParseInt(w[6], 10, 64)
+			ch := security.ParseChannel(topic(w[4]))
+			contract := nodes[0].b.Svc.License.Contract()
+			ev := &event.Subscription{Peer: peer, Conn: security.ID(conn), Ssid: message.NewSsid(contract, ch.Query)}
+			st := event.NewState("")
+			saved := nowVal
+			if add != 0 {
+				nowVal = add
+				st.Add(ev)
+			}
+			if del != 0 {
+				nowVal = del
+				st.Del(ev)
+			}
+			nowVal = saved
+			delta, err := nodes[b-1].sw.OnGossip(st.Encode()[0])
+			ds := "nil"
+			if err != nil {
+				ds = "err"
+			} else if delta != nil {
+				ds = ""
+				for _, buf := range delta.Encode() {
+					ds += payloadStr(buf)
+				}
+			}
+			return "delta=" + ds + " " + dump(b)
 		case "drain":
 			return drain()
 		case "quiesce":
